@@ -59,7 +59,7 @@ func (m *c05Mon) after(h *H, s *step) {
 		expired := false
 		for _, sc := range r.SetCookies() {
 			if sc.Name == name {
-				if ma, ok := sc.Attrs["max-age"]; ok && (ma == "0" || strings.HasPrefix(ma, "-")) {
+				if sc.Expired() {
 					expired = true
 				}
 				if e, ok := sc.Attrs["expires"]; ok && strings.Contains(e, "1970") {
